@@ -125,12 +125,22 @@ func streamPl(o opts) {
 			obs.I(d...)
 			w.O(ints(op...), obs)
 			log = append(log, fmt.Sprint(op))
+			if len(log) > 120 {
+				log = append([]string{"..."}, log[len(log)-80:]...)
+			}
 			return d
 		}
 		bad := func(prop, what string) {
 			m.violate(prop, fmt.Sprintf("intrusive structures (n=%d owner=%d mainCap=%d), after ops %v: %s", n, owner, mcap, log, what), "pl")
 		}
 		nops := 20 + r.Intn(60)
+		// every twelfth trace: an LFU ring whose entries are read several hundred times each (frequency counters far
+		// beyond any small bound), before the random operations
+		hotOps := 0
+		if mode == 2 && t%12 == 2 {
+			hotOps = 600 + r.Intn(500)
+			nops += hotOps
+		}
 		for i := 0; i < nops; i++ {
 			x := 1 + r.Intn(n)
 			switch mode {
@@ -350,6 +360,17 @@ func streamPl(o opts) {
 			case 2: // ---- LFU ring
 				var d []int64
 				k := r.Intn(10)
+				if i < hotOps {
+					hn := 3
+					if n < hn {
+						hn = n
+					}
+					if x = 1 + i%hn; i < hn {
+						k = 0
+					} else if k = 5; i%7 == 3 {
+						x = 1 // uneven counts
+					}
+				}
 				switch {
 				case k < 3:
 					if _, ok := ref.freq[x]; ok {
